@@ -228,13 +228,13 @@ Qed.
 
 (* ---------- facts read off the table *)
 Definition P_ok (a : ast) : bool := x_ve a || m_ok (x_m a).
-Definition P_both (a : ast) : bool := x_ve a || x_vg a || (negb (m_r (x_m a) && m_er (x_m a)) && negb (m_er2 (x_m a))).
+Definition P_both (a : ast) : bool := x_ve a || (negb (m_r (x_m a) && m_er (x_m a)) && negb (m_er2 (x_m a))).
 Definition P_early (a : ast) : bool := x_ve a || negb (m_early (x_m a)) || x_rs a.
 Definition closed_ok (a : ast) : bool :=
   (x_rqf a || sst_eqb (x_cs a) SErrored || sst_eqb (x_ss a) SErrored)
   && (negb (x_up a) || x_rsf a || x_ab a || sst_eqb (x_ss a) SErrored).
 Definition P_out (a : ast) : bool :=
-  negb (is_pnone (x_pc a)) || x_tun a || x_cr a || x_ve a || x_vg a || negb (m_qh (x_m a)) || negb (closed_ok a)
+  negb (is_pnone (x_pc a)) || x_tun a || x_cr a || x_ve a || negb (m_qh (x_m a)) || negb (closed_ok a)
   || (xorb (m_r (x_m a)) (m_er (x_m a)) && negb (x_live a)).
 Lemma table_facts : forallb (fun a => P_ok a && P_both a && P_early a && P_out a) ELEMS = true.
 Proof. vm_cast_no_check (eq_refl true). Qed.
